@@ -486,6 +486,8 @@ class Interp:
             return True
         if isinstance(l, Sym) and isinstance(r, Sym) and l.tag == r.tag:
             return True
+        if isinstance(l, Sym) and isinstance(r, Sym) and l.distinct and r.distinct:
+            return False  # two different generic user-chosen names
         if isinstance(l, Const) and l.v is None:
             return self.is_none(r)
         if isinstance(r, Const) and r.v is None:
